@@ -927,6 +927,18 @@ fn hide_default_ignorables(buffer: &mut hb_buffer_t, face: &hb_font_t) {
     }
 }
 
+// ---- verification hooks (compiled only with `--cfg rustybuzz_verif`; add-only wrappers around the
+// private default-ignorable passes, used by the external correspondence harness of property C13).
+#[cfg(rustybuzz_verif)]
+pub fn verif_zero_width_default_ignorables(buffer: &mut hb_buffer_t) {
+    zero_width_default_ignorables(buffer)
+}
+
+#[cfg(rustybuzz_verif)]
+pub fn verif_hide_default_ignorables(buffer: &mut hb_buffer_t, face: &hb_font_t) {
+    hide_default_ignorables(buffer, face)
+}
+
 fn propagate_flags(buffer: &mut hb_buffer_t) {
     // Propagate cluster-level glyph flags to be the same on all cluster glyphs.
     // Simplifies using them.
